@@ -69,6 +69,8 @@ def to_sv(v):
         return {"k": "str", "v": "".join(chr(c) for c in v["cs"])}
     if v["k"] == "list":
         return {"k": "list", "es": [to_sv(e) for e in v["es"]]}
+    if v["k"] == "anyobj":
+        return {"k": "anyobj", "ks": ["".join(chr(c) for c in k) for k in v["ks"]], "vs": [to_sv(e) for e in v["vs"]]}
     if v["k"] == "opt" and v.get("some"):
         return {"k": "opt", "some": True, "v": to_sv(v["v"])}
     return v
